@@ -56,7 +56,9 @@ RULE = ("transit-world transfers: file sizes {0,1,CHUNK±1,4*CHUNK±1,8*CHUNK±1
         "mid-record; single bit flips (length prefix, nonce, body); ack honest/dropped/flipped/forged (wrong hash, no hash, not ok, "
         "garbage, junk hash, empty); source growing after the offer; whole ciphertext records replayed / duplicated / swapped / "
         "withheld by a man in the middle, optionally followed by a cut; a NAME.tmp already in the receive directory (longer, equal, "
-        "shorter; planted, or left behind by a real interrupted transfer run first in the same sandbox); plus an adversarial record-level stream against the real "
+        "shorter; planted, or left behind by a real interrupted transfer run first in the same sandbox); payload content classes "
+        "(pseudo-random, all-zero, all-0xFF, one repeated byte, random with an all-zero tail/head/middle block of 1..2*CHUNK bytes; "
+        "also as members of directory trees and as all-zero records in the record-level stream); plus an adversarial record-level stream against the real "
         "Receiver (over/under-long, empty records, loss before attach); non-trivial = reached a transfer outcome; distinct = "
         "distinct canonical output traces")
 
@@ -83,6 +85,44 @@ def payload_bytes(size, seed):
     for i in range(0, size, 4093):
         b[i] = (b[i] + i // 4093) % 256
     return bytes(b)
+
+
+def make_content(size, seed, fill=None):
+    """payload CONTENT classes: fill = None/"rand" | "zero" | "ff" | ["byte", b] | ["ztail", n] | ["zhead", n] | ["zmid", off, n]
+    (n zero bytes at the end / at the start / from offset off; everything else pseudo-random)"""
+    if fill in (None, "rand"):
+        return payload_bytes(size, seed)
+    if fill == "zero":
+        return bytes(size)
+    if fill == "ff":
+        return b"\xff" * size
+    kind = fill[0]
+    if kind == "byte":
+        return bytes([fill[1] % 256]) * size
+    b = bytearray(payload_bytes(size, seed))
+    # keep the random part free of accidental zeros next to the zero block
+    for i in range(len(b)):
+        if b[i] == 0:
+            b[i] = 1
+    if kind == "ztail":
+        n = min(fill[1], size)
+        b[size - n:] = bytes(n)
+    elif kind == "zhead":
+        n = min(fill[1], size)
+        b[:n] = bytes(n)
+    elif kind == "zmid":
+        off = min(fill[1], size)
+        n = min(fill[2], size - off)
+        b[off:off + n] = bytes(n)
+    else:
+        raise ValueError(fill)
+    return bytes(b)
+
+
+FILLS = (["zero", "ff", ["byte", 0x41], ["byte", 0x0a]]
+         + [["ztail", n] for n in (1, 4095, 4096, 16384, 16385, 32768)]
+         + [["zhead", n] for n in (1, 4096, 16384, 16385)]
+         + [["zmid", 16384, 16384], ["zmid", 100, 4096], ["zmid", 16383, 16386], ["zmid", 4096, 4096]])
 
 
 def outcome(d, sender=False):
@@ -276,14 +316,16 @@ def fix_times(root):
 
 def write_tree(root, tree, seed):
     os.makedirs(root)
-    for i, (rel, size) in enumerate(tree):
+    for i, ent in enumerate(tree):
+        rel, size = ent[0], ent[1]
+        fill = ent[2] if len(ent) > 2 else None
         p = os.path.join(root, rel)
         if size is None:
             os.makedirs(p, exist_ok=True)
         else:
             os.makedirs(os.path.dirname(p), exist_ok=True)
             with open(p, "wb") as f:
-                f.write(payload_bytes(size, seed + i))
+                f.write(make_content(size, seed + i, fill))
             if i % 3 == 1:
                 os.chmod(p, 0o755)
 
@@ -386,7 +428,7 @@ def _run_xfer(case, box, srcname):
 
     # ---- file / directory
     if pl["type"] == "file":
-        content = payload_bytes(pl["size"], pl.get("pseed", 1))
+        content = make_content(pl["size"], pl.get("pseed", 1), pl.get("fill"))
         with open(os.path.join(srcdir, name), "wb") as f:
             f.write(content)
     else:
@@ -761,8 +803,11 @@ def xfer(payload, **kw):
     return c
 
 
-def filep(size, pseed=1):
-    return dict(type="file", size=size, pseed=pseed)
+def filep(size, pseed=1, fill=None):
+    d = dict(type="file", size=size, pseed=pseed)
+    if fill is not None:
+        d["fill"] = fill
+    return d
 
 
 def corpus():
@@ -828,6 +873,33 @@ def corpus():
     out.append(xfer(filep(3 * CHUNK), fault=dict(kind="replay", src=1, dst=2, keep=3), stale=4 * CHUNK))
     out.append(xfer(dict(type="dir", tree=TREES[4], pseed=3), name="d", fault=dict(kind="replay", src=0, dst=1, keep=2)))
     out.append(xfer(dict(type="dir", tree=TREES[4], pseed=3), name="d", fault=dict(kind="dup", src=0)))
+    # payload CONTENT classes: all-zero / all-0xFF / one repeated byte around the chunk boundaries; random data with an
+    # all-zero tail, head or middle block (sparse-file shaped data, runs a record-level shortcut could mistake for "nothing")
+    for sz in [1, 4095, 4096, CHUNK - 1, CHUNK, CHUNK + 1, 2 * CHUNK, 2 * CHUNK + 1, 40000]:
+        for fill in ["zero", "ff", ["byte", 0x41]]:
+            out.append(xfer(filep(sz, fill=fill), chunk="rand", cseed=sz))
+    for sz in [40000, 2 * CHUNK, 3 * CHUNK, 3 * CHUNK + 5]:
+        for n in (1, 4095, 4096, CHUNK, CHUNK + 1, 2 * CHUNK):
+            out.append(xfer(filep(sz, fill=["ztail", n]), chunk="rec"))
+        for n in (1, 4096, CHUNK, CHUNK + 1):
+            out.append(xfer(filep(sz, fill=["zhead", n]), chunk="rand", cseed=n))
+        out.append(xfer(filep(sz, fill=["zmid", CHUNK, CHUNK]), chunk="rec"))
+        out.append(xfer(filep(sz, fill=["zmid", 100, 4096]), chunk="all"))
+        out.append(xfer(filep(sz, fill=["zmid", CHUNK - 1, CHUNK + 2]), early=99, chunk="rec"))
+    out.append(xfer(filep(2 * CHUNK, fill="zero"), early=99, chunk="rec"))
+    out.append(xfer(filep(2 * CHUNK, fill="zero"), fault=dict(kind="cut", at=["rec", 1, 10])))
+    out.append(xfer(filep(3 * CHUNK, fill="zero"), fault=dict(kind="replay", src=0, dst=2, keep=3)))
+    out.append(xfer(filep(40000, fill=["ztail", 40000 - 2 * CHUNK]), stale=50000))
+    out.append(xfer(filep(CHUNK, fill="zero"), stale=3 * CHUNK))
+    out.append(xfer(dict(type="dir", pseed=5, tree=[["zeros", 2 * CHUNK, "zero"], ["ff", CHUNK + 1, "ff"], ["tail", 40000, ["ztail", 7232]],
+                                                    ["head", 40000, ["zhead", CHUNK]], ["aaaa", 5000, ["byte", 0x61]], ["sub/z1", 1, "zero"],
+                                                    ["sub/mid", 3 * CHUNK, ["zmid", CHUNK, CHUNK]]]), name="d", chunk="rand"))
+    out.append(xfer(dict(type="dir", pseed=5, tree=[["only", 4096, "zero"]]), name="d", chunk="rec"))
+    zrec = bytes(4096).hex()
+    out.append(dict(kind="records", xfersize=8192, recs=[zrec, zrec], script=list("crr")))
+    out.append(dict(kind="records", xfersize=8192, recs=["ab" * 4096, zrec], script=list("rcr")))
+    out.append(dict(kind="records", xfersize=8192, recs=[zrec, "cd" * 4096], script=list("rrc")))
+    out.append(dict(kind="records", xfersize=4096, recs=[zrec], script=list("cr")))
     for t in TEXTS:
         out.append(xfer(dict(type="text", text=t)))
     for a in ["ok", "no", "missing", "OK"]:
@@ -855,7 +927,10 @@ def gen_xfer(rng):
         for i in range(rng.randrange(0, 5)):
             depth = rng.randrange(1, 4)
             comps = [rng.choice(["a", "b c", "ä", "-x", ".h", "Z"]) + str(i) for _ in range(depth)]
-            tree.append(["/".join(comps), None if rng.random() < 0.25 else rng.choice([0, 1, 100, CHUNK, CHUNK + 1, 50000])])
+            ent = ["/".join(comps), None if rng.random() < 0.25 else rng.choice([0, 1, 100, 4096, CHUNK, CHUNK + 1, 50000])]
+            if ent[1] is not None and rng.random() < 0.4:
+                ent.append(rng.choice(FILLS))
+            tree.append(ent)
         payload = dict(type="dir", tree=tree, pseed=rng.randrange(1000))
         name = rng.choice(["d", "my dir", "ünï"])
     else:
@@ -901,6 +976,8 @@ def gen_xfer(rng):
         if "keep" not in f and rng.random() < 0.4:
             f["keep"] = rng.randrange(0, 7)
         c["fault"] = f
+    if payload["type"] == "file" and rng.random() < 0.35:
+        c["payload"] = payload = dict(payload, fill=rng.choice(FILLS))
     if payload["type"] == "file" and rng.random() < 0.2:
         r = rng.random()
         if r < 0.3:
@@ -923,12 +1000,15 @@ def gen_text(rng):
 
 
 def gen_records(rng):
-    xfersize = rng.choice([0, 1, 2, 5, 10, 100])
+    xfersize = rng.choice([0, 1, 2, 5, 10, 100, 4096, 8192, 5000])
     recs, tot = [], 0
     for _ in range(rng.randrange(0, 7)):
         n = rng.choice([0, 0, 1, 2, 3, 5, 9, 50])
-        recs.append(bytes(rng.randrange(256) for _ in range(n)).hex())
-        tot += n
+        if rng.random() < 0.15:
+            recs.append(bytes(rng.choice([1, 50, 4095, 4096, 5000])).hex())     # an all-zero record
+        else:
+            recs.append(bytes(rng.randrange(256) for _ in range(n)).hex())
+        tot += len(recs[-1]) // 2
     script = ["r"] * len(recs) + ["c"] + (["l"] if rng.random() < 0.5 else [])
     rng.shuffle(script)
     return dict(kind="records", xfersize=xfersize, recs=recs, script=script)
